@@ -61,7 +61,9 @@ type c12Fault struct {
 	N    int
 }
 
-func (f c12Fault) String() string { return fmt.Sprintf("%s sink: %c call #%d fails", sinkNames[f.Sink], f.Op, f.N) }
+func (f c12Fault) String() string {
+	return fmt.Sprintf("%s sink: %c call #%d fails", sinkNames[f.Sink], f.Op, f.N)
+}
 
 // c12Execute runs script + recovery suffix on the real processor.
 func c12Execute(cfg fsmConfig, script []fsmEvent, fault func(sink int, op byte, n int) bool) (r *fsmRun, nScript int) {
